@@ -21,6 +21,7 @@ from ..simnet import World
 
 P = "C02"
 FULL_ENUM_LIMIT = 1200  # responses up to this many wire bytes get *every* cut / truncation point
+RST_CODES = (0, 1, 2, 5, 7, 8, 11, 13, 0x1234)  # NO_ERROR, PROTOCOL_ERROR, INTERNAL_ERROR, STREAM_CLOSED, REFUSED_STREAM, CANCEL, ENHANCE_YOUR_CALM, HTTP_1_1_REQUIRED, unknown
 
 
 def net_for(case):
@@ -251,6 +252,32 @@ def execute(case) -> Outcome:
         if vio:
             break
 
+    # ---- (e) HTTP/2: the stream is reset (RST_STREAM with every error code class, NO_ERROR included) after each prefix of the
+    #      response's frames: an error unless the response was already complete (END_STREAM sent)
+    if case["proto"] == "h2" and not vio:
+        n_units = ex0.get("n_units", 0)
+        ks = list(range(0, n_units + 1)) if n_units <= 10 else sorted({0, 1, 2, 3, n_units // 2, n_units - 3, n_units - 2, n_units - 1, n_units})
+        for k in ks:
+            for code in RST_CODES:
+                rcase = dict(case, plan=dict(plan, h2_rst={"after": k, "code": code}), h2_goaway_after=False)
+                for sync in ((True, False) if code in (0, 8) else (True,)):
+                    _, o, _ = run(rcase, sync=sync, api="request" if code != 0 else case.get("api", "stream"),
+                                  seg=[1] if (k + code) % 5 == 0 and n <= 3000 else None)
+                    metrics["executions"] += 1
+                    metrics["reset_runs"] = metrics.get("reset_runs", 0) + 1
+                    what = f"RST_STREAM(error_code={code}) after {k} of the response's {n_units} frames"
+                    if k >= n_units:
+                        for kk, m in compare(o, tr, case, what + " (i.e. after END_STREAM)"):
+                            add(kk, m, "reset-complete")
+                    elif o["exc"] is None:
+                        add("reset-silent", f"{what} [{'sync' if sync else 'async'}]: the caller got status {o['status']} and a body of {len(o['body'])} bytes "
+                            f"without an error (framed body: {len(tr['body'])} bytes)", "reset")
+                    elif o["exc"]["type"] == "HANG":
+                        add("reset-hang", f"{what}: {o['exc']['msg']}", "reset")
+            if vio:
+                break
+        tags.append("h2-reset-sweep")
+
     dup = gen.has_dups(plan["headers"])
     if dup:
         tags.append("duplicate-headers")
@@ -295,7 +322,9 @@ RULE = ("A case is one generated well-formed response (HTTP/1.1: status, reason,
         "0-2 interim 1xx, Connection: close; HTTP/2: HEADERS (+CONTINUATION, padding, priority), several DATA frames, empty DATA, "
         "trailers, interim) for GET/HEAD/POST. For each case the server byte stream is delivered unsegmented, one byte at a time, "
         "split at EVERY single position (responses <= 1200 wire bytes; bigger ones: all structural offsets + a grid), at drawn "
-        "multi-cut sets and segment-size sequences, and truncated at EVERY position followed by EOF; sync and async. "
+        "multi-cut sets and segment-size sequences, and truncated at EVERY position followed by EOF; sync and async. HTTP/2 responses are "
+        "additionally reset (RST_STREAM with 9 error codes incl. NO_ERROR) after every prefix of their frames (all prefixes up to 10 frames, "
+        "else the first four, the middle and the last four): an error unless END_STREAM had been sent. "
         "Non-trivial: the case included cuts strictly inside a CRLF pair / chunk-size line / 9-byte frame header and truncation "
         "points; distinct = distinct generated response. coverage.metrics.executions counts the individual runs.")
 
